@@ -197,6 +197,7 @@ func HarnessMetaInit() {
 	final := dir + "/" + metadb.FileName
 	tmp := final + ".tmp"
 	ev := vrt.Events()
+	vrt.Assert("C07.meta-commits-are-synced-before-the-file-is-published", boltCommitsSynced(ev))
 	for i, e := range ev {
 		switch {
 		case e.Op == "rename" && e.OK && e.Note == final:
@@ -237,6 +238,28 @@ func HarnessMetaInit() {
 	vrt.Reach("metainit-checked")
 }
 
+// boltCommitsSynced: every bbolt commit made with the database's fsyncs switched off
+// (NoSync) is followed by an explicit DB.Sync before that file is closed or renamed.
+func boltCommitsSynced(ev []vrt.OSEvent) bool {
+	ok := true
+	for j, c := range ev {
+		if c.Op != "bolt-commit" || !c.OK || !strings.Contains(c.Note, "NOSYNC") {
+			continue
+		}
+		synced := false
+		for k := j + 1; k < len(ev) && !synced; k++ {
+			if ev[k].Op == "bolt-sync" && ev[k].OK && ev[k].Path == c.Path {
+				synced = true
+			}
+			if (ev[k].Op == "bolt-close" || ev[k].Op == "rename") && ev[k].Path == c.Path {
+				break
+			}
+		}
+		ok = ok && synced
+	}
+	return ok
+}
+
 var Harnesses = map[string]func(){
 	"HarnessFS":       HarnessFS,
 	"HarnessMetaInit": HarnessMetaInit,
@@ -270,6 +293,7 @@ func HarnessStableBolt() {
 		}
 	}
 	vrt.Assert("C08.bolt-set-touches-only-stable-bucket", onlyStable)
+	vrt.Assert("C08.bolt-set-is-synced-when-acknowledged", boltCommitsSynced(vrt.Events()))
 	vrt.Assert("C08.bolt-set-commits", committed)
 	got, err := db.GetStable([]byte("k"))
 	vrt.Assert("C08.bolt-get-latest", err == nil && bytes.Equal(got, val))
@@ -289,7 +313,29 @@ func HarnessStableBolt() {
 	vrt.Assert("C08.bolt-delete-ok", db.SetStable([]byte("k"), nil) == nil)
 	gone, err := db.GetStable([]byte("k"))
 	vrt.Assert("C08.bolt-deleted-is-nil", err == nil && gone == nil)
+	// the history set X, set nil, set X again, then X once more (a repeated identical Set),
+	// then a different value of the same length: Get follows the latest Set every time
+	vrt.Assert("C08.bolt-set-again-ok", db.SetStable([]byte("k"), val) == nil)
+	back, err := db.GetStable([]byte("k"))
+	vrt.Assert("C08.bolt-set-after-delete-is-visible", err == nil && bytes.Equal(back, val))
+	vrt.Assert("C08.bolt-set-again-ok", db.SetStable([]byte("k"), val) == nil)
+	back, err = db.GetStable([]byte("k"))
+	vrt.Assert("C08.bolt-repeated-set-is-visible", err == nil && bytes.Equal(back, val))
+	val2 := append([]byte(nil), val...)
+	val2[0] = vrt.U8("val2.0")
+	vrt.Assert("C08.bolt-set-again-ok", db.SetStable([]byte("k"), val2) == nil)
+	back, err = db.GetStable([]byte("k"))
+	vrt.Assert("C08.bolt-overwrite-is-visible", err == nil && bytes.Equal(back, val2))
 	db.Close()
+	// a clean reopen of the same database serves the last value
+	var db2 metadb.BoltMetaDB
+	_, err = db2.Load(dir)
+	vrt.Assert("C08.bolt-reload-ok", err == nil)
+	if err == nil {
+		back, err = db2.GetStable([]byte("k"))
+		vrt.Assert("C08.bolt-value-survives-reopen", err == nil && bytes.Equal(back, val2))
+		db2.Close()
+	}
 	vrt.Reach("stable-bolt-checked")
 }
 
